@@ -57,6 +57,10 @@ func rulesC17(c *Ctx) {
 					c.Ok(key, f, w, "every path from this mutation to return passes sortedKeys = nil")
 					continue
 				}
+				if c17InsertInvalidates(f, g, w, features, sorted, fsT, isInvalidate) {
+					c.Ok(key, f, w, "a write under a key that is already present keeps the key set; under a new key (the presence test of that very key answered false) every path to the write passes sortedKeys = nil, and nothing in the method rebuilds the index")
+					continue
+				}
 				// flag idiom: the invalidation is under `if flag`, flag is monotone (false at declaration, constant true with the mutation)
 				var flag types.Object
 				for _, iv := range g.Vertices(func(n ast.Node) bool { return true }) {
@@ -126,7 +130,11 @@ func rulesC17(c *Ctx) {
 					}
 					return false
 				}() {
-					c.Undecided(key, f, w, "the sorted index is maintained in place instead of being invalidated: whether every mutation keeps it exact is not something this rule can decide")
+					if hf, hn, what := c17UnsortedMerge(c, f.Root(), sorted); hf != nil {
+						c.Fail(key, hf, hn, "the sorted index is pruned in place by walking it and the list of removed keys in lock-step through a cursor that only moves forward — a merge, which drops all the keys only if that list is in ascending order too; %s: keys given out of order stay in the index after they left the map (the next list yields entries that are not registered)", what)
+					} else {
+						c.Undecided(key, f, w, "the sorted index is maintained in place instead of being invalidated: whether every mutation keeps it exact is not something this rule can decide")
+					}
 				} else {
 					c.Fail(key, f, w, "a path leaves the method with features changed but sortedKeys still valid (%s): the next list walks stale keys (missing, duplicated or nil entries)", g.PathString(path))
 				}
@@ -242,6 +250,82 @@ func rulesC17(c *Ctx) {
 			}
 			c.Pin("result setter calls in paginateList", nSet, 1)
 		}
+		// first page vs cursor page
+		okSeq := 0
+		var ignored []string
+		// (the sequence may be chosen in a helper behind paginateList, and handed back by return instead of assignment)
+		type seqSite struct {
+			f  *Func
+			ce *ast.CallExpr
+		}
+		var sites []seqSite
+		for _, g0 := range c.pkgClosure(pl) {
+			for _, w := range Writes(g0.Body, false) {
+				if w.RHS != nil {
+					if ce, ok := ast.Unparen(w.RHS).(*ast.CallExpr); ok && g0.Callee(ce) != nil {
+						sites = append(sites, seqSite{g0, ce})
+					}
+				}
+			}
+			if g0 != pl {
+				for _, r := range g0.Returns() {
+					for _, e := range r.Results {
+						if ce, ok := ast.Unparen(e).(*ast.CallExpr); ok && g0.Callee(ce) != nil {
+							sites = append(sites, seqSite{g0, ce})
+						}
+					}
+				}
+			}
+		}
+		for _, site := range sites {
+			pl, ce := site.f, site.ce
+			switch pl.Callee(ce).Name() {
+			case "all":
+				okSeq++
+				// a cursor that was presented and decoded is answered from its position: the from-the-start sequence is not
+				// chosen on any path behind the decoding (whatever the decoded id is — the empty string is an id like any other)
+				gg := pl.Graph()
+				av := gg.VertexOf(ce)
+				for _, dv := range gg.callVertices(c.FnObj(pM, "", "decodeCursor")) {
+					if av >= 0 && gg.ReachableFrom(dv)[av] {
+						ignored = append(ignored, pl.At(ce))
+					}
+				}
+			case "above":
+				// the id comes from the decoded cursor
+				dcVar := pl.VarFromCall(c.FnObj(pM, "", "decodeCursor"), 0)
+				if name, on := pl.SelectorOn(ce.Args[0], dcVar); on && name == "LastUID" {
+					okSeq++
+				} else if dcVar != nil && pl.ObjOf(ce.Args[0]) == dcVar {
+					// decodeCursor hands out the id itself: its successful return is <token>.LastUID
+					dc := c.Fn(pM, "", "decodeCursor")
+					for _, r := range dc.Returns() {
+						if len(r.Results) == 2 && isNilIdent(r.Results[1]) {
+							if s, isS := ast.Unparen(r.Results[0]).(*ast.SelectorExpr); isS && s.Sel.Name == "LastUID" {
+								okSeq++
+							}
+						}
+					}
+				} else if id, isID := ast.Unparen(ce.Args[0]).(*ast.Ident); isID && dcVar != nil {
+					// a local that is only ever given the decoded id (a zero declaration aside)
+					n, all := 0, true
+					for _, w := range Writes(pl.Root().Body, true) {
+						if _, isLID := ast.Unparen(w.LHS).(*ast.Ident); !isLID || pl.ObjOf(w.LHS) != pl.ObjOf(id) || w.RHS == nil {
+							continue
+						}
+						n++
+						if name, on := pl.SelectorOn(w.RHS, dcVar); !on || name != "LastUID" {
+							all = false
+						}
+					}
+					if n > 0 && all {
+						okSeq++
+					}
+				}
+			}
+		}
+		c.Check(okSeq == 2, "paginateList:all-or-above-cursor", pl, nil, "no cursor → all(); cursor → above(decoded id)")
+		c.Check(len(ignored) == 0, "paginateList:decoded-cursor-is-not-answered-from-the-start", pl, nil, "all() is not chosen on a path behind decodeCursor: once a cursor was presented and decoded the page starts strictly after its id, whatever that id is (%v: a cursor whose id is the empty string — issued by the server itself when \"\" is the last id of a page — restarts the listing, and the traversal never ends)", ignored)
 		c.Need(countVar != nil && pageVar != nil, "paginateList: counter and page variables")
 		// break at count == pageSize+1 before the append
 		okBreak, okNoMore := false, false
@@ -291,56 +375,6 @@ func rulesC17(c *Ctx) {
 			}
 		}
 		c.Check(okLast, "paginateList:cursor-is-last-returned-id", pl, nil, "the cursor encodes the unique id of the last item actually returned")
-		// first page vs cursor page
-		okSeq := 0
-		// (the sequence may be chosen in a helper behind paginateList, and handed back by return instead of assignment)
-		type seqSite struct {
-			f  *Func
-			ce *ast.CallExpr
-		}
-		var sites []seqSite
-		for _, g0 := range c.pkgClosure(pl) {
-			for _, w := range Writes(g0.Body, false) {
-				if w.RHS != nil {
-					if ce, ok := ast.Unparen(w.RHS).(*ast.CallExpr); ok && g0.Callee(ce) != nil {
-						sites = append(sites, seqSite{g0, ce})
-					}
-				}
-			}
-			if g0 != pl {
-				for _, r := range g0.Returns() {
-					for _, e := range r.Results {
-						if ce, ok := ast.Unparen(e).(*ast.CallExpr); ok && g0.Callee(ce) != nil {
-							sites = append(sites, seqSite{g0, ce})
-						}
-					}
-				}
-			}
-		}
-		for _, site := range sites {
-			pl, ce := site.f, site.ce
-			switch pl.Callee(ce).Name() {
-			case "all":
-				okSeq++
-			case "above":
-				// the id comes from the decoded cursor
-				dcVar := pl.VarFromCall(c.FnObj(pM, "", "decodeCursor"), 0)
-				if name, on := pl.SelectorOn(ce.Args[0], dcVar); on && name == "LastUID" {
-					okSeq++
-				} else if dcVar != nil && pl.ObjOf(ce.Args[0]) == dcVar {
-					// decodeCursor hands out the id itself: its successful return is <token>.LastUID
-					dc := c.Fn(pM, "", "decodeCursor")
-					for _, r := range dc.Returns() {
-						if len(r.Results) == 2 && isNilIdent(r.Results[1]) {
-							if s, isS := ast.Unparen(r.Results[0]).(*ast.SelectorExpr); isS && s.Sel.Name == "LastUID" {
-								okSeq++
-							}
-						}
-					}
-				}
-			}
-		}
-		c.Check(okSeq == 2, "paginateList:all-or-above-cursor", pl, nil, "no cursor → all(); cursor → above(decoded id)")
 	})
 
 	c.Rule("R-C17-3", "feature sets are only touched with their owner's lock held", func() {
@@ -885,4 +919,195 @@ func onlyFrom(f *Func, id *ast.Ident, depth int, ok func(ast.Expr) bool) bool {
 		}
 	}
 	return n > 0
+}
+
+// c17InsertInvalidates: the mutation is `features[k] = v` and the method asks whether k is present (`_, ok := features[k]`)
+// — a write under a present key replaces a value and leaves the key set, hence the index, as it was.  Evaluated with
+// "k is new" (ok == false), no path reaches the write without passing the invalidation; and nothing in the method
+// rebuilds the index (so an invalidation before the write is as good as one after it).
+func c17InsertInvalidates(f *Func, g *Graph, w ast.Node, features, sorted *types.Var, fsT *types.Named, isInvalidate func(int) bool) bool {
+	as, ok := w.(*ast.AssignStmt)
+	if !ok || len(as.Lhs) != 1 {
+		return false
+	}
+	ix, ok := ast.Unparen(as.Lhs[0]).(*ast.IndexExpr)
+	if !ok || !f.IsField(ix.X, features) {
+		return false
+	}
+	key := f.ObjOf(ix.Index)
+	if key == nil || len(f.writesToVar(f.Body, key, true)) > 1 {
+		return false
+	}
+	flags := map[types.Object]bool{}
+	for _, wr := range Writes(f.Body, false) {
+		st, isAs := wr.Stmt.(*ast.AssignStmt)
+		if !isAs || len(st.Lhs) != 2 || len(st.Rhs) != 1 {
+			continue
+		}
+		rx, isIx := ast.Unparen(st.Rhs[0]).(*ast.IndexExpr)
+		if !isIx || !f.IsField(rx.X, features) || f.ObjOf(rx.Index) != key {
+			continue
+		}
+		if o := f.ObjOf(st.Lhs[1]); o != nil && len(f.writesToVar(f.Body, o, true)) == 1 && g.Dominates(g.VertexOf(st), g.VertexOf(w)) {
+			flags[o] = true
+		}
+	}
+	if len(flags) == 0 {
+		return false
+	}
+	for _, sw := range f.FieldWrites(f.Body, sorted, true) {
+		if a2, isAs := sw.(*ast.AssignStmt); !isAs || len(a2.Rhs) != 1 || !isNilIdent(a2.Rhs[0]) {
+			return false
+		}
+	}
+	for _, call := range f.AllCalls(f.Body, true) {
+		if fn := f.Callee(call); fn != nil && fn.Type().(*types.Signature).Recv() != nil {
+			if rn := namedOf(fn.Type().(*types.Signature).Recv().Type()); rn != nil && rn.Origin() == fsT.Origin() {
+				return false
+			}
+		}
+	}
+	seen := g.ReachUnder(func(e ast.Expr) tri {
+		if id, isID := ast.Unparen(e).(*ast.Ident); isID && flags[f.ObjOf(id)] {
+			return triFalse
+		}
+		return triUnknown
+	}, func(v int) bool { return g.Node(v) != nil && isInvalidate(v) })
+	wv := g.VertexOf(w)
+	return wv >= 0 && !seen[wv]
+}
+
+// c17UnsortedMerge looks, behind a mutating method, for a lock-step walk of the sorted index against a second list
+// (`for _, k := range sortedKeys { … k == other[cur] … cur++ }`, cur never set back inside the loop) and answers where
+// that second list is handed over without having been sorted (nil function: no such walk, or its operand is sorted).
+func c17UnsortedMerge(c *Ctx, root *Func, sorted *types.Var) (*Func, ast.Node, string) {
+	closure := c.pkgClosure(root)
+	for _, h := range closure {
+		var other *ast.Ident
+		var loop *ast.RangeStmt
+		inspectNoLit(h.Body, func(n ast.Node) {
+			rs, ok := n.(*ast.RangeStmt)
+			if !ok || rs.Value == nil || !h.IsField(rs.X, sorted) {
+				return
+			}
+			val := h.ObjOf(rs.Value)
+			if val == nil {
+				return
+			}
+			ast.Inspect(rs.Body, func(m ast.Node) bool {
+				be, ok := m.(*ast.BinaryExpr)
+				if !ok || be.Op != token.EQL {
+					return true
+				}
+				for _, pr := range [][2]ast.Expr{{be.X, be.Y}, {be.Y, be.X}} {
+					if h.ObjOf(pr[0]) != val {
+						continue
+					}
+					ix, ok := ast.Unparen(pr[1]).(*ast.IndexExpr)
+					if !ok {
+						continue
+					}
+					bid, ok := ast.Unparen(ix.X).(*ast.Ident)
+					cur := h.ObjOf(ix.Index)
+					if !ok || cur == nil {
+						continue
+					}
+					mono, nInc := true, 0
+					for _, cw := range h.writesToVar(h.Body, cur, true) {
+						if id, isInc := cw.(*ast.IncDecStmt); isInc && id.Tok == token.INC {
+							nInc++
+							continue
+						}
+						if cw.Pos() >= rs.Pos() && cw.End() <= rs.End() {
+							mono = false
+						}
+					}
+					if mono && nInc > 0 {
+						other, loop = bid, rs
+					}
+				}
+				return true
+			})
+		})
+		if other == nil {
+			continue
+		}
+		idx := -1
+		for i, p := range h.Root().NonRecvParams() {
+			if h.ObjOf(other) == types.Object(p) {
+				idx = i
+			}
+		}
+		if idx < 0 {
+			if !c17SortedAt(h, other, loop) {
+				return h, loop, "no sort of " + other.Name + " stands before the walk"
+			}
+			continue
+		}
+		if h.Root().Obj == nil {
+			continue
+		}
+		for _, g0 := range closure {
+			for _, k := range append([]*Func{g0}, g0.AllLits()...) {
+				for _, call := range k.AllCalls(k.Body, false) {
+					if fn := k.Callee(call); fn == nil || fn.Origin() != h.Root().Obj.Origin() || idx >= len(call.Args) {
+						continue
+					}
+					if !c17SortedAt(k, call.Args[idx], call) {
+						return k, call, exprStr(call.Args[idx]) + " is handed to " + h.Name() + " in the order it was collected (no sort of it stands before the call)"
+					}
+				}
+			}
+		}
+	}
+	return nil, nil, ""
+}
+
+// c17SortedAt: the value of e at node `at` is in ascending order: it is the result of slices.Sorted, or a variable which a
+// sort call that every path to `at` passes has put in order, with no write to it in between.
+func c17SortedAt(f *Func, e ast.Expr, at ast.Node) bool {
+	e = ast.Unparen(e)
+	isSort := func(fn *types.Func, names ...string) bool {
+		if fn == nil || fn.Pkg() == nil {
+			return false
+		}
+		for _, n := range names {
+			if fn.Pkg().Path()+"."+fn.Name() == n {
+				return true
+			}
+		}
+		return false
+	}
+	if ce, ok := e.(*ast.CallExpr); ok {
+		return isSort(f.Callee(ce), "slices.Sorted")
+	}
+	o := f.ObjOf(e)
+	if o == nil {
+		return false
+	}
+	g := f.Graph()
+	av := g.VertexOf(at)
+	if av < 0 {
+		return false
+	}
+	for _, call := range f.AllCalls(f.Body, false) {
+		if !isSort(f.Callee(call), "slices.Sort", "sort.Strings") || len(call.Args) != 1 || f.ObjOf(call.Args[0]) != o {
+			continue
+		}
+		sv := g.VertexOf(call)
+		if sv < 0 || !g.Dominates(sv, av) {
+			continue
+		}
+		clean := true
+		for _, w := range f.writesToVar(f.Body, o, false) {
+			wv := g.VertexOf(w)
+			if wv >= 0 && g.ReachableFrom(sv)[wv] && g.ReachableFrom(wv)[av] {
+				clean = false
+			}
+		}
+		if clean {
+			return true
+		}
+	}
+	return false
 }
